@@ -390,6 +390,12 @@ pub fn run(tier: Tier) -> i32 {
     run.assume("DESIGN Appendix A.2 is the Hayson encoding (written from memory of the Project Haystack documentation)");
     run.assume("serde_json is the trusted JSON reader for the reference writer's self-check");
     crate::engine::quiet_panics();
+    {
+        let pool: Vec<V> = super::c01::probe_pool();
+        if super::common::probe_first(&mut run, "hayson-codec", &pool, &super::c02::hayson_observation, &|v: &V| crate::model::v::to_json(v)) {
+            return run.finish(&replay);
+        }
+    }
     let scalars = u::scalars(tier);
     let l = par_for(scalars.len(), |i, local| {
         check_value(&scalars[i], local, true, &emitted_conforms);
@@ -467,6 +473,10 @@ pub fn run(tier: Tier) -> i32 {
 }
 
 pub fn replay(case: &J) -> Verdict {
+    if case["free_running"] == "hayson-codec" {
+        let pool: Vec<V> = super::c01::probe_pool();
+        return super::common::replay_probe(&pool, &super::c02::hayson_observation, &|v: &V| crate::model::v::to_json(v));
+    }
     let v = from_json(&case["value"]);
     if let Some(ch) = case.get("choices").and_then(|c| c.as_array()) {
         let choices: Vec<u32> = ch.iter().map(|x| x.as_u64().unwrap_or(0) as u32).collect();
